@@ -322,7 +322,8 @@ theorem fieldless_literal_fails :
       (fun _ => ())) = .error .attributeError := by decide +kernel
 
 /-! The witness of the fixed defect 3b63cdc: six records, `a,b;5:5`, printed (nothing skipped), then
-`table.fmt.set_limits((1, 1))`: the flag is forgotten, the limits are in the string again. -/
+`table.fmt.set_limits((1, 1))`: the flag is forgotten, the limits are in the string again; so are (fix
+1d22ea8) the widths fitted to the rows that were visible before. -/
 
 private def limArgs : CtorArgs :=
   { records := (List.range 6).map fun i => [Val.int (i : Nat), Val.str "x".toList],
@@ -331,6 +332,6 @@ private def limArgs : CtorArgs :=
     skip := Option.none }
 
 example : (mkTable limArgs >>= render).map (fun x => String.ofList (fmtToStr (setLimits x.1 (some 1) (some 1)).fmt))
-    = .ok "a:1-999(1),b:1-999(1);1:1" := by decide +kernel
+    = .ok "a:1-999,b:1-999;1:1" := by decide +kernel
 
 end C13
